@@ -95,6 +95,14 @@ Theorem C15_par1_create_inputs_untouched : forall md5 parPath files nvol fs sche
 Proof. exact par1_create_inputs_untouched. Qed.
 Print Assumptions C15_par1_create_inputs_untouched.
 
+(* ... and the inputs themselves keep their content whatever their names (an input that is an output is refused before
+   the first write): Props/C02.v C02_par1_create_never_modifies_inputs, restated *)
+Theorem C15_par1_create_never_modifies_inputs : forall md5 parPath files nvol fs sched f,
+  In f files ->
+  fs_lookup (io_fs (snd (Par1.par1_create md5 parPath files nvol (io_init fs sched)))) f = fs_lookup fs f.
+Proof. exact par1_create_never_modifies_inputs. Qed.
+Print Assumptions C15_par1_create_never_modifies_inputs.
+
 (* VERIFY AND REPAIR (PAR2), for EVERY file system, fault schedule, index path and archive content: every write
    event of Repair targets Join(Dir(index), name) for a declared name that checkFilename accepted - hence
    (C15_join) the directory's components plus a non-empty list of ordinary components: strictly below the
